@@ -9,7 +9,7 @@ from props._lab import S, Lab, SymEnv, DictStorage, do_op, base_tree
 PROP = "C08"
 LEVEL = "other"
 SELFTEST_PARTS = ("num",)
-WALL_BUDGET = {"quick": 1200, "thorough": 9000}
+WALL_BUDGET = {"quick": 3600, "thorough": 14400}
 FIELDS = ["otype", "hash", "changed", "sync_hash", "path", "sync_path", "oid", "exists", "size", "mtime", "saved_exists"]
 
 HASHES = [None, b"\x00\xffbytes", "str-hé", 2 ** 40, (b"a", ("n", 1)), {"k": b"v", "n": 3}, b""]
